@@ -343,3 +343,19 @@ CHECKS["C19"] = {
     ),
     "note": "That flattening/sorting yields the right order for all tree shapes is a value property and is not decided." + TRUSTED,
 }
+
+CHECKS["C20"] = {
+    "technique": "return-kind inference on callbacks + emptiness abstract interpretation of the three-way dispatch + who-may-call rule",
+    "text": (
+        "Static rules for twistedsupport/_matchers.py and _deferred.py: every callback the matchers attach to the "
+        "matchee returns its first parameter on all paths (results stay intact for later callbacks); nothing calls "
+        "callback/errback/cancel on the matchee (count 0, with an embedded positive example that must match); an "
+        "abstract interpretation of on_deferred_result over the four emptiness combinations of its capture lists shows "
+        "exactly one of the three callbacks is invoked and its value returned, both-non-empty raises; the per-state "
+        "verdict tables of _NoResult/_Succeeded/_Failed are the documented ones (success delegates on the value, "
+        "failure on the Failure), so with Always() exactly one of the three matchers matches in each state; both "
+        "failure arms add a swallowing errback; SynchronousDeferredRunTest._run_user and extract_result have the "
+        "documented three-way shape."
+    ),
+    "note": "Twisted's unhandled-error logging at garbage collection is runtime behaviour and is not decided." + TRUSTED,
+}
